@@ -33,7 +33,9 @@ REACH = {"quick": {"fmt:pickle": 150, "fmt:npz": 150, "fmt:parquet": 150, "fmt:c
 
 MAGIC = {".gz": b"\x1f\x8b", ".bz2": b"BZh", ".xz": b"\xfd7zXZ"}
 IO_STR = ["abc", "a,b", 'say "hi"', "line1\nline2", "semi;colon", "tab\there", "pipe|d", "ünï", "日本語", " lead", "trail ", "'single'",
-          "back\\slash", "x", "née", "Zoë", "\U0001F600 smile", "q" * 60]
+          "back\\slash", "x", "née", "Zoë", "\U0001F600 smile", "q" * 60,
+          # characters that str.splitlines() treats as line boundaries but file iteration / CSV parsers do not
+          "ls\u2028sep", "ps\u2029sep", "nel\x85x", "vt\x0bx", "ff\x0cx", "fs\x1cx"]
 LATIN = ["abc", "a,b", 'say "hi"', "ünï", "née", "Zoë", "semi;colon", "x y", "line1\nline2", "pipe|d"]
 
 FORMATS = ["pickle", "npz", "parquet", "csv", "csv", "json", "lod-json", "lod-csv", "lod-pickle"]
@@ -85,7 +87,10 @@ def generate(rng, tier):
         items = []
         for i in range(n):
             if fmt == "lod-csv":
-                items.append({k: rng.choice(pool + [""]) for k in keys})
+                # every item has every key, but not necessarily inserted in the same order (items gathered from different sources)
+                ks = list(keys)
+                if rng.random() < 0.3: rng.shuffle(ks)
+                items.append({k: rng.choice(pool + [""]) for k in ks})
             else:
                 it = {}
                 for k in keys:
@@ -174,8 +179,8 @@ def execute(case):
                 for it in list.__iter__(data): it["zz_added"] = "v"
                 items = [dict(x, zz_added="v") for x in items]
             elif hist == "delete":
-                k0 = list(items[0])[0]
-                if all(k0 in x for x in items) and len(items[0]) > 1:
+                k0 = list(items[0])[0] if items[0] else None
+                if k0 is not None and all(k0 in x for x in items) and len(items[0]) > 1:
                     for it in list.__iter__(data): del it[k0]
                     items = [{k: v for k, v in x.items() if k != k0} for x in items]
             else:
@@ -201,9 +206,17 @@ def execute(case):
             return res.dict()
         got = [dict(x) for x in list.__iter__(back)]
         exp = [dict(x) for x in items]
-        if fmt == "lod-csv" and opts.get("header") is False:
-            names = _colnames(len(exp[0]))
-            exp = [dict(zip(names, x.values())) for x in exp]
+        if fmt == "lod-csv":
+            # a CSV file has one column order for all rows (keys in first-seen order): each value stays under its own key, whatever
+            # order the keys were inserted into an individual item
+            allk = []
+            for x in exp:
+                for k in x:
+                    if k not in allk: allk.append(k)
+            exp = [{k: x[k] for k in allk if k in x} for x in exp]
+            if opts.get("header") is False:
+                names = _colnames(len(allk))
+                exp = [{nm: x[k] for nm, k in zip(names, allk)} for x in exp]
         if not isinstance(back, di.ListOfDicts) or got != exp or [list(g) for g in got] != [list(e) for e in exp]:
             res.violate(f"roundtrip:items-differ:{feat}", f"{fmt}{suffix} {opts}: read back {canon.short(got, 700)} expected {canon.short(exp, 700)}")
         res.count("roundtrips")
